@@ -90,6 +90,44 @@ CHECKS = {
              "are not part of the scenario); Tick runs through the verif hook VerifTick (a copy of the loop body); relay "
              "pull interleavings are covered by C17.",
         ref="6/C03"),
+    "C07": dict(
+        technique="TLA+ spec Ingest (property Conforms + design Machine; TLC exhaustive over streams x packings x arrival "
+                  "orders) + replay of the enumerated cases into the real customize-pub / RTSP pub / GB28181 PS ingest "
+                  "chains + TLC trace validation of what an HTTP-FLV subscriber received",
+        text="TLC checks DesignConforms (SameUnits, SeqHeaderFromParamSets, KeyMarked, TimeAffine without drift; reorder "
+             "invariance) over enumerated elementary streams x packetisation / PS packing x clock rates x arrival orders "
+             "in a window of 3; every stream is executed against the real ingest chains (customize pub, RTSP ANNOUNCE / "
+             "SETUP / RECORD with interleaved RTP, PsUnpacker) plus long-run drift, size and cut-offset cases, and the "
+             "FLV subscriber's output is decided by TLC against Conforms.",
+        note="<= 2 real video frames per enumerated stream (120 / 2000 frames in generated runs); one perturbation per run; "
+             "RTSP binding is interleaved TCP only; the PS binding bypasses the gb28181.PubSession socket loop.",
+        ref="6/C07"),
+    "C15": dict(
+        technique="TLA+ spec Backpressure (bounded queue / write in flight / wire; fine-grained model + call-level model; "
+                  "TLC exhaustive incl. liveness) + edge-cover replay into a real logic.Group with sub sessions on gated "
+                  "in-memory connections + TLC trace validation",
+        text="TLC checks NoBlocking, QueueBound, WholeUnits on every interleaving of the fan-out loop with the writer "
+             "goroutines for queue sizes 1..3 and EventuallyClosed under fairness of timers only; a negative "
+             "configuration (header and payload as two elements) must violate WholeUnits; covering paths (stall / resume "
+             "/ read-one / deadline / sweep anywhere) are replayed for RTMP, HTTP-FLV, WS-FLV, HTTP-TS, WS-TS against real "
+             "sessions and TLC decides the part in flight, deliveries, closure, non-blocking, the 100 ms latency bound "
+             "and the final framing of each consumer's byte stream.",
+        note="Trusted: gated net.Conn with virtual write deadline; goroutine quiescence read from runtime.Stack; latency is "
+             "wall-clock (slow scenarios are re-run, reported only if they reproduce); RTSP interleaved and the merge "
+             "writer are not covered.",
+        ref="6/C15"),
+    "C17": dict(
+        technique="TLA+ spec Lifecycle (relay pull module: enable / in-flight / attached / retry budget / auto-stop clock; TLC "
+                  "exhaustive + simulation) + replay into a real ServerManager with a gated stub origin + TLC trace "
+                  "validation",
+        text="TLC checks the pull invariants over every interleaving of subscriber arrivals, API start / stop / kick, "
+             "origin outcomes (accept, refuse, end), publisher arrivals, ticks and elapsed auto-stop windows for retry "
+             "budgets 0 / 1 / forever and auto-stop never / immediately / after a window; behaviours are replayed into a "
+             "real ServerManager whose pulls connect to a gated origin, and API return codes, notifications, the number "
+             "of connection attempts the origin saw and the stat listing after every step are decided by TLC.",
+        note="Relay pull only: the relay-push clause (targets, retries on tick, URL parameter length) is not yet bound to the "
+             "code; the auto-stop window is real time (700 ms; stalled scenarios are dropped as inconclusive).",
+        ref="6/C17"),
 }
 
 NOT_APPLICABLE = {}
